@@ -51,7 +51,6 @@ extern "C" void stub_to_string(std::string * ret, unsigned v) {
 #define NCAND 6
 static const uint32_t F_SYM = 7, BODY = 50, NEWBODY = 51, SORT = 3;
 static bool forb_old[NARGS], forb_new[NCAND];
-static char fname0;                       // first character of the function's name ('x' or another letter)
 static bool foreign;
 static bool is_forbidden(PTRef t) {
     for (int i = 0; i < NARGS; i++) if (t.x == 10u + i) return forb_old[i];
@@ -76,6 +75,7 @@ extern "C" SRef stub_sortOfTerm(void *, PTRef) { return SRef{SORT}; }
 extern "C" SRef stub_sortOfSym(void *, SymRef) { return SRef{SORT}; }
 extern "C" bool stub_isVar(void *, PTRef) { return true; }
 extern "C" void stub_protectName(std::string * ret, void *, std::string const *, bool) { sso_set(ret, fname, 1); }
+extern "C" void stub_protectSym(std::string * ret, void *, SymRef s) { if (s.x != F_SYM) foreign = true; sso_set(ret, fname, 1); }
 // Logic::mkVar(sort, name): the variable of that name (a function of the name)
 static bool bad_name;
 extern "C" PTRef stub_mkVar(void *, SRef, const char * nm, bool) {
